@@ -4,6 +4,7 @@ C02 helper lemmas, part 6: one round trip per format, `lower()` in closed form, 
 import PybtexModel.Lemmas.BibWriteDb
 import PybtexModel.Lemmas.BibWriteYaml
 import PybtexModel.Lemmas.BibWriteXml
+import PybtexModel.Lemmas.BibWriteCase
 
 namespace Pybtex.C02
 open Pybtex Pybtex.Spec Pybtex.Bib Pybtex.BibWrite Pybtex.BibSpec Pybtex.Names Pybtex.BibRT
@@ -40,7 +41,7 @@ theorem lower_lower (s : Str) : lower (lower s) = lower s := by
     exact Char.toLower_toLower_eq_toLower c
 
 theorem ciOfPairs_acc {V : Type} : ∀ (ps acc : List (Str × V)),
-    (∀ p ∈ ps, ∀ y ∈ acc, lower y.1 ≠ lower p.1) → (ps.map fun p => lower p.1).Pairwise (· ≠ ·) →
+    (∀ p ∈ ps, ∀ y ∈ acc, lowerU y.1 ≠ lowerU p.1) → (ps.map fun p => lowerU p.1).Pairwise (· ≠ ·) →
     ps.foldl (fun d p => ciSet d p.1 p.2) acc = acc ++ ps := by
   intro ps
   induction ps with
@@ -58,14 +59,14 @@ theorem ciOfPairs_acc {V : Type} : ∀ (ps acc : List (Str × V)),
       · exact h1 q (by simp [hq]) y hy
       · exact h2.1 _ (List.mem_map.2 ⟨q, hq, rfl⟩)
 
-theorem ciOfPairs_id {V : Type} (ps : List (Str × V)) (h : (ps.map fun p => lower p.1).Pairwise (· ≠ ·)) :
+theorem ciOfPairs_id {V : Type} (ps : List (Str × V)) (h : (ps.map fun p => lowerU p.1).Pairwise (· ≠ ·)) :
     ciOfPairs ps = ps := by
   unfold ciOfPairs
   rw [ciOfPairs_acc ps [] (by simp) h]
   simp
 
 theorem fieldsOkT_ci (y : Bool) : ∀ (fs : List (Str × Str)) (seen : List Str), fieldsOkT y seen fs = true →
-    (∀ f ∈ fs, lower f.1 ∉ seen) ∧ (fs.map fun f => lower f.1).Pairwise (· ≠ ·) := by
+    (∀ f ∈ fs, lowerU f.1 ∉ seen) ∧ (fs.map fun f => lowerU f.1).Pairwise (· ≠ ·) := by
   intro fs
   induction fs with
   | nil => intro _ _; exact ⟨by simp, by simp⟩
@@ -74,7 +75,7 @@ theorem fieldsOkT_ci (y : Bool) : ∀ (fs : List (Str × Str)) (seen : List Str)
     simp only [fieldsOkT, Bool.and_eq_true, Bool.not_eq_true'] at h
     obtain ⟨⟨_, h3⟩, h4⟩ := h
     obtain ⟨i1, i2⟩ := ih _ h4
-    have h3' : lower f.1 ∉ seen := by simpa using h3
+    have h3' : lowerU f.1 ∉ seen := by simpa using h3
     refine ⟨?_, ?_⟩
     · intro g hg
       rcases List.mem_cons.1 hg with rfl | hg
@@ -87,7 +88,7 @@ theorem fieldsOkT_ci (y : Bool) : ∀ (fs : List (Str × Str)) (seen : List Str)
       exact i1 g hg (by rw [heq]; exact List.mem_cons_self)
 
 theorem rolesOkT_ci : ∀ (rs : List (Str × List Person)) (seen : List Str), rolesOkT seen rs = true →
-    (∀ r ∈ rs, lower r.1 ∉ seen) ∧ (rs.map fun r => lower r.1).Pairwise (· ≠ ·) := by
+    (∀ r ∈ rs, lowerU r.1 ∉ seen) ∧ (rs.map fun r => lowerU r.1).Pairwise (· ≠ ·) := by
   intro rs
   induction rs with
   | nil => intro _ _; exact ⟨by simp, by simp⟩
@@ -96,7 +97,7 @@ theorem rolesOkT_ci : ∀ (rs : List (Str × List Person)) (seen : List Str), ro
     simp only [rolesOkT, Bool.and_eq_true, Bool.not_eq_true', List.all_eq_true, decide_eq_true_eq] at h
     obtain ⟨⟨⟨⟨_, h2⟩, _⟩, _⟩, h5⟩ := h
     obtain ⟨i1, i2⟩ := ih _ h5
-    have h2' : lower r.1 ∉ seen := by simpa using h2
+    have h2' : lowerU r.1 ∉ seen := by simpa using h2
     refine ⟨?_, ?_⟩
     · intro g hg
       rcases List.mem_cons.1 hg with rfl | hg
@@ -109,19 +110,19 @@ theorem rolesOkT_ci : ∀ (rs : List (Str × List Person)) (seen : List Str), ro
       exact i1 g hg (by rw [heq]; exact List.mem_cons_self)
 
 theorem entryLower_spec {yaml : Bool} {keys : List Str} {e : Entry} (h : entryOkT yaml keys e = true) :
-    ({ entryLower e with key := lower e.key } : Entry) = lowerEntrySpec e := by
+    ({ entryLower e with key := lowerU e.key } : Entry) = lowerEntrySpec e := by
   simp only [entryOkT, Bool.and_eq_true] at h
   obtain ⟨⟨_, h3⟩, h4⟩ := h
   have f := (fieldsOkT_ci yaml e.fields [] h4).2
   have r := (rolesOkT_ci e.persons [] h3).2
   unfold entryLower lowerEntrySpec
   rw [ciOfPairs_id, ciOfPairs_id]
-  · simpa [lower_lower, Function.comp_def] using r
-  · simpa [lower_lower, Function.comp_def] using f
+  · simpa [lowerU_idem, Function.comp_def] using r
+  · simpa [lowerU_idem, Function.comp_def] using f
 
 theorem dbLower_fold {yaml : Bool} : ∀ (es : List Entry) (keys : List Str) (acc : List Entry) (rep : List Str),
-    entriesOkT yaml keys es = true → (∀ x ∈ acc, lower x.key ∈ keys) →
-    (es.map fun e => (lower e.key, entryLower e)).foldl (fun a p => addEntryPlain a p.1 p.2) (acc, rep) =
+    entriesOkT yaml keys es = true → (∀ x ∈ acc, lowerU x.key ∈ keys) →
+    (es.map fun e => (lowerU e.key, entryLower e)).foldl (fun a p => addEntryPlain a p.1 p.2) (acc, rep) =
       (acc ++ es.map lowerEntrySpec, rep) := by
   intro es
   induction es with
@@ -130,21 +131,21 @@ theorem dbLower_fold {yaml : Bool} : ∀ (es : List Entry) (keys : List Str) (ac
     intro keys acc rep h hacc
     simp only [entriesOkT, Bool.and_eq_true] at h
     obtain ⟨h1, h2⟩ := h
-    have hfresh : lower e.key ∉ keys := by
+    have hfresh : lowerU e.key ∉ keys := by
       have := h1
       simp only [entryOkT, Bool.and_eq_true, Bool.not_eq_true'] at this
       simpa using this.1.1.2
-    have hany : acc.any (fun x => lower x.key = lower (lower e.key)) = false := by
+    have hany : acc.any (fun x => lowerU x.key = lowerU (lowerU e.key)) = false := by
       rw [List.any_eq_false]
       intro x hx heq
-      simp only [decide_eq_true_eq, lower_lower] at heq
+      simp only [decide_eq_true_eq, lowerU_idem] at heq
       have := hacc x hx
       rw [heq] at this
       exact hfresh this
     simp only [List.map_cons, List.foldl_cons]
-    have hstep : addEntryPlain (acc, rep) (lower e.key) (entryLower e) = (acc ++ [lowerEntrySpec e], rep) := by
+    have hstep : addEntryPlain (acc, rep) (lowerU e.key) (entryLower e) = (acc ++ [lowerEntrySpec e], rep) := by
       simp only [addEntryPlain, hany, Bool.false_eq_true, if_false, entryLower_spec h1]
-    rw [hstep, ih (lower e.key :: keys) (acc ++ [lowerEntrySpec e]) rep h2
+    rw [hstep, ih (lowerU e.key :: keys) (acc ++ [lowerEntrySpec e]) rep h2
       (by intro x hx; simp only [List.mem_append, List.mem_singleton] at hx
           rcases hx with hx | rfl
           · exact List.mem_cons_of_mem _ (hacc x hx)
@@ -160,6 +161,36 @@ theorem dbLower_spec {yaml : Bool} {d : BibData} (h : WFDbTree yaml d = true) :
 
 /-! ### the domains are closed under what a round trip and `lower()` do -/
 
+theorem rolesOkW_tree : ∀ (rs : List (Str × List Person)) (seen : List Str), rolesOkW seen rs = true →
+    rolesOkT seen rs = true := by
+  intro rs
+  induction rs with
+  | nil => intro _ _; rfl
+  | cons r rs ih2 =>
+    intro seen hh
+    simp only [rolesOkW, Bool.and_eq_true, List.all_eq_true] at hh
+    obtain ⟨⟨⟨⟨⟨⟨a1, a2⟩, a3⟩, a4⟩, a5⟩, _⟩, a7⟩ := hh
+    have hl : lowerU r.1 = lower r.1 := lowerU_ascii (isAsciiStr_of_isName a1)
+    simp only [rolesOkT, hl, Bool.and_eq_true, List.all_eq_true, a2, a3, a4, ih2 _ a7, and_true, true_and]
+    intro p hp
+    have := a5 p hp
+    simp only [personOkW, Bool.and_eq_true] at this
+    exact this.1
+
+theorem fieldsOkW_tree : ∀ (fs : List (Str × Str)) (seen : List Str), fieldsOkW seen fs = true →
+    fieldsOkT false seen fs = true := by
+  intro fs
+  induction fs with
+  | nil => intro _ _; rfl
+  | cons f fs ih2 =>
+    intro seen hh
+    simp only [fieldsOkW, Bool.and_eq_true] at hh
+    obtain ⟨⟨⟨⟨a1, a2⟩, a3⟩, _⟩, a5⟩ := hh
+    have ha := isAsciiStr_of_isName a1
+    have hl : lowerU f.1 = lower f.1 := lowerU_ascii ha
+    simp only [fieldsOkT, hl, Bool.and_eq_true, a2, a3, ih2 _ a5, lowerDomain_ascii ha, Bool.false_and,
+      Bool.not_false, and_true]
+
 theorem WFDb_tree {d : BibData} (h : WFDb d = true) : WFDbTree false d = true := by
   simp only [WFDb, Bool.and_eq_true] at h
   unfold WFDbTree
@@ -170,33 +201,15 @@ theorem WFDb_tree {d : BibData} (h : WFDb d = true) : WFDbTree false d = true :=
     | cons e es ih =>
       intro keys hk
       simp only [entriesOkW, Bool.and_eq_true] at hk
-      simp only [entriesOkT, Bool.and_eq_true, ih _ hk.2, and_true]
       have he := hk.1
-      simp only [entryOkW, Bool.and_eq_true] at he
-      obtain ⟨⟨⟨⟨⟨⟨_, _⟩, h3⟩, _⟩, h5⟩, h6⟩, h7⟩ := he
-      have hr : ∀ (rs : List (Str × List Person)) (seen : List Str), rolesOkW seen rs = true → rolesOkT seen rs = true := by
-        intro rs
-        induction rs with
-        | nil => intro _ _; rfl
-        | cons r rs ih2 =>
-          intro seen hh
-          simp only [rolesOkW, Bool.and_eq_true, List.all_eq_true] at hh
-          obtain ⟨⟨⟨⟨⟨⟨_, a2⟩, a3⟩, a4⟩, a5⟩, _⟩, a7⟩ := hh
-          simp only [rolesOkT, Bool.and_eq_true, List.all_eq_true, a2, a3, a4, ih2 _ a7, and_true, true_and]
-          intro p hp
-          have := a5 p hp
-          simp only [personOkW, Bool.and_eq_true] at this
-          exact this.1
-      have hf : ∀ (fs : List (Str × Str)) (seen : List Str), fieldsOkW seen fs = true → fieldsOkT false seen fs = true := by
-        intro fs
-        induction fs with
-        | nil => intro _ _; rfl
-        | cons f fs ih2 =>
-          intro seen hh
-          simp only [fieldsOkW, Bool.and_eq_true] at hh
-          obtain ⟨⟨⟨⟨_, a2⟩, a3⟩, _⟩, a5⟩ := hh
-          simp only [fieldsOkT, Bool.and_eq_true, a2, a3, ih2 _ a5, Bool.false_and, Bool.not_false, and_true]
-      simp only [entryOkT, Bool.and_eq_true, h3, h5, hr _ _ h6, hf _ _ h7, and_true]
+      simp only [entryOkW, Bool.and_eq_true, beq_iff_eq] at he
+      obtain ⟨⟨⟨⟨⟨⟨⟨h1, _⟩, h3⟩, _⟩, hk5⟩, h5⟩, h6⟩, h7⟩ := he
+      have hat := isAsciiStr_of_isName h1
+      have hlk : lowerU e.key = lower e.key := lowerU_ascii hk5
+      have hlt : lowerU e.origType = lower e.origType := lowerU_ascii hat
+      simp only [entriesOkT, Bool.and_eq_true, hlk, ih _ hk.2, and_true]
+      simp only [entryOkT, Bool.and_eq_true, hlk, hlt, h3, h5, rolesOkW_tree _ _ h6, fieldsOkW_tree _ _ h7,
+        lowerDomain_ascii hat, lowerDomain_ascii hk5, beq_self_eq_true, and_true]
   exact key _ _ h.1
 
 theorem inDomain_tree {f : Fmt} {d : BibData} (h : inDomain f d = true) : ∃ y, WFDbTree y d = true := by
@@ -343,21 +356,55 @@ theorem keyOk_lower (k : Str) : keyOk false (lower k) = keyOk false k := by
     exact keyChar_lowerC c
   simp only [h1, h2]
 
+theorem lowerC_ascii_table : (List.range 128).all (fun n => decide ((lowerC (Char.ofNat n)).toNat < 128)) = true := by
+  decide +kernel
 
+theorem isAsciiStr_lower {s : Str} (h : isAsciiStr s = true) : isAsciiStr (lower s) = true := by
+  simp only [isAsciiStr, lower, List.all_map, List.all_eq_true, Function.comp_apply, decide_eq_true_eq] at h ⊢
+  intro c hc
+  have := lowerC_ascii_table
+  simp only [List.all_eq_true, List.mem_range, decide_eq_true_eq] at this
+  have h1 := this c.toNat (h c hc)
+  rwa [Char.ofNat_toNat] at h1
 
 theorem rolesOkT_lower : ∀ (rs : List (Str × List Person)) (seen : List Str),
-    rolesOkT seen (rs.map fun r => (lower r.1, r.2)) = rolesOkT seen rs := by
+    rolesOkT seen (rs.map fun r => (lowerU r.1, r.2)) = rolesOkT seen rs := by
   intro rs
   induction rs with
   | nil => intro _; rfl
-  | cons r rs ih => intro seen; simp only [List.map_cons, rolesOkT, isPersonField_lower_self, lower_lower, ih]
+  | cons r rs ih => intro seen; simp only [List.map_cons, rolesOkT, isPersonField_lowerU, lowerU_idem, ih]
 
 theorem fieldsOkT_lower (y : Bool) : ∀ (fs : List (Str × Str)) (seen : List Str),
-    fieldsOkT y seen (fs.map fun f => (lower f.1, f.2)) = fieldsOkT y seen fs := by
+    fieldsOkT y seen fs = true → fieldsOkT y seen (fs.map fun f => (lowerU f.1, f.2)) = true := by
   intro fs
   induction fs with
-  | nil => intro _; rfl
-  | cons f fs ih => intro seen; simp only [List.map_cons, fieldsOkT, isPersonField_lower_self, lower_lower, ih]
+  | nil => intro _ _; rfl
+  | cons f fs ih =>
+    intro seen h
+    simp only [fieldsOkT, Bool.and_eq_true] at h
+    obtain ⟨⟨⟨⟨a1, a2⟩, a3⟩, a4⟩, a5⟩ := h
+    simp only [List.map_cons, fieldsOkT, isPersonField_lowerU, isType_lowerU, lowerU_idem, Bool.and_eq_true]
+    exact ⟨⟨⟨⟨a1, a2⟩, lowerDomain_lowerU a3⟩, a4⟩, ih _ a5⟩
+
+theorem rolesOkW_names : ∀ (rs : List (Str × List Person)) (seen : List Str), rolesOkW seen rs = true →
+    (rs.map fun r => (lowerU r.1, r.2)) = (rs.map fun r => (lower r.1, r.2)) := by
+  intro rs
+  induction rs with
+  | nil => intro _ _; rfl
+  | cons r rs ih =>
+    intro seen h
+    simp only [rolesOkW, Bool.and_eq_true] at h
+    simp only [List.map_cons, ih _ h.2, lowerU_ascii (isAsciiStr_of_isName h.1.1.1.1.1.1)]
+
+theorem fieldsOkW_names : ∀ (fs : List (Str × Str)) (seen : List Str), fieldsOkW seen fs = true →
+    (fs.map fun f => (lowerU f.1, f.2)) = (fs.map fun f => (lower f.1, f.2)) := by
+  intro fs
+  induction fs with
+  | nil => intro _ _; rfl
+  | cons f fs ih =>
+    intro seen h
+    simp only [fieldsOkW, Bool.and_eq_true] at h
+    simp only [List.map_cons, ih _ h.2, lowerU_ascii (isAsciiStr_of_isName h.1.1.1.1)]
 
 theorem rolesOkW_lower : ∀ (rs : List (Str × List Person)) (seen : List Str),
     rolesOkW seen (rs.map fun r => (lower r.1, r.2)) = rolesOkW seen rs := by
@@ -387,12 +434,14 @@ theorem entriesOkT_lower (y : Bool) : ∀ (es : List Entry) (keys : List Str), e
     simp only [entriesOkT, Bool.and_eq_true] at h
     obtain ⟨h1, h2⟩ := h
     simp only [entryOkT, Bool.and_eq_true, beq_iff_eq] at h1
+    obtain ⟨⟨⟨⟨⟨a1, a2⟩, a3⟩, a4⟩, a5⟩, a6⟩ := h1
     simp only [List.map_cons, entriesOkT, Bool.and_eq_true]
     refine ⟨?_, ?_⟩
-    · simp only [entryOkT, lowerEntrySpec, lower_lower, rolesOkT_lower, fieldsOkT_lower, Bool.and_eq_true,
-        beq_self_eq_true, true_and]
-      exact ⟨⟨h1.1.1.2, h1.1.2⟩, h1.2⟩
-    · have : lower (lowerEntrySpec e).key = lower e.key := by simp [lowerEntrySpec, lower_lower]
+    · simp only [entryOkT, lowerEntrySpec, lowerU_idem, rolesOkT_lower, fieldsOkT_lower y _ _ a6, Bool.and_eq_true,
+        beq_self_eq_true, true_and, and_true]
+      refine ⟨⟨⟨?_, lowerDomain_lowerU a3⟩, a4⟩, a5⟩
+      rw [a1]; exact lowerDomain_lowerU a2
+    · have : lowerU (lowerEntrySpec e).key = lowerU e.key := by simp [lowerEntrySpec, lowerU_idem]
       rw [this]; exact ih _ h2
 
 theorem entriesOkW_lower : ∀ (es : List Entry) (keys : List Str), entriesOkW keys es = true →
@@ -405,15 +454,19 @@ theorem entriesOkW_lower : ∀ (es : List Entry) (keys : List Str), entriesOkW k
     simp only [entriesOkW, Bool.and_eq_true] at h
     obtain ⟨h1, h2⟩ := h
     simp only [entryOkW, Bool.and_eq_true, beq_iff_eq] at h1
-    obtain ⟨⟨⟨⟨⟨⟨a1, a2⟩, a3⟩, a4⟩, a5⟩, a6⟩, a7⟩ := h1
+    obtain ⟨⟨⟨⟨⟨⟨⟨a1, a2⟩, a3⟩, a4⟩, ak⟩, a5⟩, a6⟩, a7⟩ := h1
+    have hlk : lowerU e.key = lower e.key := lowerU_ascii ak
+    have hty : isName e.type = true := by rw [a3, isName_lower]; exact a1
+    have hlt : lowerU e.type = lower e.type := lowerU_ascii (isAsciiStr_of_isName hty)
     simp only [List.map_cons, entriesOkW, Bool.and_eq_true]
     refine ⟨?_, ?_⟩
-    · simp only [entryOkW, lowerEntrySpec, lower_lower, rolesOkW_lower, fieldsOkW_lower, keyOk_lower,
+    · simp only [entryOkW, lowerEntrySpec, hlk, hlt, rolesOkW_names _ _ a6, fieldsOkW_names _ _ a7, lower_lower,
+        rolesOkW_lower, fieldsOkW_lower, keyOk_lower, isAsciiStr_lower ak,
         Bool.and_eq_true, beq_self_eq_true, and_true, a4, a5, a6, a7]
       -- the entry type: `origType := e.type = lower e.origType`
       rw [a3, isName_lower, lower_lower]
       exact ⟨a1, a2⟩
-    · have : lower (lowerEntrySpec e).key = lower e.key := by simp [lowerEntrySpec, lower_lower]
+    · have : lower (lowerEntrySpec e).key = lower e.key := by simp [lowerEntrySpec, hlk, lower_lower]
       rw [this]; exact ih _ h2
 
 theorem inDomain_lower {f : Fmt} {d : BibData} (h : inDomain f d = true) : inDomain f (lowerSpec d) = true := by
@@ -428,13 +481,13 @@ theorem inDomain_lower {f : Fmt} {d : BibData} (h : inDomain f d = true) : inDom
 
 /-! ### chains with `preserve_case = False` -/
 
-theorem lowerEntrySpec_idem {e : Entry} (h : e.type = lower e.origType) :
+theorem lowerEntrySpec_idem {e : Entry} (h : e.type = lowerU e.origType) :
     lowerEntrySpec (lowerEntrySpec e) = lowerEntrySpec e := by
-  have ht : lower e.type = e.type := by rw [h, lower_lower]
-  simp only [lowerEntrySpec, lower_lower, ht, List.map_map, Function.comp_def]
+  have ht : lowerU e.type = e.type := by rw [h, lowerU_idem]
+  simp only [lowerEntrySpec, lowerU_idem, ht, List.map_map, Function.comp_def]
 
 theorem typeOk_of_tree {y : Bool} : ∀ (es : List Entry) (keys : List Str), entriesOkT y keys es = true →
-    ∀ e ∈ es, e.type = lower e.origType := by
+    ∀ e ∈ es, e.type = lowerU e.origType := by
   intro es
   induction es with
   | nil => intro _ _ e he; simp at he
@@ -444,7 +497,7 @@ theorem typeOk_of_tree {y : Bool} : ∀ (es : List Entry) (keys : List Str), ent
     rcases List.mem_cons.1 he with rfl | he
     · have := h.1
       simp only [entryOkT, Bool.and_eq_true, beq_iff_eq] at this
-      exact this.1.1.1
+      exact this.1.1.1.1.1
     · exact ih _ h.2 e he
 
 theorem chainFrom_false {S : Serial} (hS : SerialOk S) : ∀ (fs : List Fmt) (d : BibData),
@@ -461,7 +514,7 @@ theorem chainFrom_false {S : Serial} (hS : SerialOk S) : ∀ (fs : List Fmt) (d 
     exact ih _ (fun g hg => inDomain_canonFor (inDomain_lower (h g (by simp [hg]))))
 
 theorem fold_lower_entries : ∀ (fs : List Fmt) (d : BibData), fs ≠ [] →
-    (∀ e ∈ d.entries, e.type = lower e.origType) →
+    (∀ e ∈ d.entries, e.type = lowerU e.origType) →
     (fs.foldl (fun d f => canonFor f (lowerSpec d)) d).entries = d.entries.map lowerEntrySpec := by
   intro fs
   induction fs with
@@ -479,7 +532,7 @@ theorem fold_lower_entries : ∀ (fs : List Fmt) (d : BibData), fs ≠ [] →
       · intro e he
         simp only [canonFor_entries, lowerSpec, List.mem_map] at he
         obtain ⟨x, _, rfl⟩ := he
-        simp [lowerEntrySpec, lower_lower]
+        simp [lowerEntrySpec, lowerU_idem]
 
 theorem fold_lower_preamble : ∀ (fs : List Fmt) (d1 d2 : BibData), d1.preamble = d2.preamble →
     (fs.foldl (fun d f => canonFor f (lowerSpec d)) d1).preamble =
